@@ -320,6 +320,14 @@ func (m *Manager) AddPublicIP(ip net.IP) error {
 	m.poolMu.Lock()
 	defer m.poolMu.Unlock()
 
+	// A public IP may be in the pool only once: every entry hands out the same port
+	// blocks, so a second entry for the same address would assign them twice.
+	for i := range m.pool {
+		if m.pool[i].PublicIP.Equal(ip4) {
+			return fmt.Errorf("public IP %s already in NAT pool", ip4.String())
+		}
+	}
+
 	// Calculate max subscribers for this IP
 	totalPorts := m.portRangeEnd - m.portRangeStart + 1
 	maxSubs := totalPorts / m.portsPerSubscriber
